@@ -596,9 +596,9 @@ int SOLReader2<SOLHandler>::sufheadcheck(SufRead* sr) {
     return 1;
   i = (int)sr->h.kind & 3;
   if (sr->h.tablen
-   && (sr->tablines > sr->h.tablen + 1 || sr->tablines < 1))
+   && (sr->tablines < 1 || sr->tablines - 1 > sr->h.tablen))
     return 1;
-  sr->xp.resize((sr->h.tablen + 2*sr->h.namelen + 6));
+  sr->xp.resize((size_t)sr->h.tablen + 2*(size_t)sr->h.namelen + 6);
   sr->name = (char*)sr->xp.data();
   sr->table = sr->name + sr->h.namelen;
   sr->tabname = sr->table + sr->h.tablen;
